@@ -105,8 +105,8 @@ pub fn run_case(ctx: &mut Ctx, fam: &str, k: u64, r: &mut Rng) {
         full[i] = r.range(9, 40);
         da = if r.chance(1, 2) { full.clone() } else { partner(r, &full) };
         db = if r.chance(1, 2) { full.clone() } else { partner(r, &full) };
-        va = rand_ints(r, numel(&da), -9, 9);
-        vb = rand_ints(r, numel(&db), 1, 9);
+        va = (0..numel(&da)).map(|_| 0.25 * r.int(-36, 36)).collect();
+        vb = (0..numel(&db)).map(|_| 0.25 * r.int(1, 36)).collect();
     } else {
         if r.chance(1, 2) {
             let full = rand_shape(r, 5, 6);
